@@ -1,7 +1,401 @@
-//! C37 — not implemented yet (see DESIGN.md section 4).
-use kit::Run;
-use serde_json::Value;
+//! C37 — revocation evidence is bound to the signing certificate.
+//! S-env: the kit signer staples (`Signer::ocsp_val`) or asserts (`c2pa.certificate-status`) an OCSP response from a
+//! menu minted by `openssl ocsp` and by the kit's own encoder (good / revoked / unknown for the signing certificate;
+//! revoked for a sibling certificate, for a same-serial certificate of another CA; right CertID but signed by a
+//! foreign or self-made responder; signed by the issuing CA itself; expired), and a validly signed "revoked"
+//! response with EVERY byte altered in turn (in place: rVals lives in the unprotected COSE header).
+//! Oracle: revoked-for-this-certificate by an authorised responder (by construction) => never Valid/Trusted;
+//! not about the signing certificate, or not validly signed (by construction: foreign responder, altered byte in the
+//! signed data / signature / algorithm / responder key) => state and failure codes equal those of the same
+//! credential signing without revocation evidence. Everything else is recorded, not judged.
+//!
+//! Mutants caught (tools/mutant_run.sh E <patch> C37 quick):
+//!   mutants/C37-no-certid-check.diff   (cert_id_matches_signer always true)
+//!   mutants/C37-no-sig-check.diff      (OCSP response signature not verified)
 
-pub fn run(_run: &Run, _replay: Option<&Value>) {
-    kit::ev::machinery("C37: check not implemented");
+use std::sync::Mutex;
+
+use kit::{
+    par,
+    pki::{self, Cert, CertSpec, Hierarchy, KeyKind, KitSigner, Obs, OcspOpts, OcspStatus, DAY},
+    Run,
+};
+use serde::Serialize;
+use serde_json::{json, Value};
+
+/// c2pa.certificate-status payload in the form the SDK itself reads and writes: its CBOR codec reports
+/// `is_human_readable()`, so the crate-private `CertificateStatus` carries the responses as base64 text.
+#[derive(Serialize)]
+struct CertStatusAssertion {
+    #[serde(rename = "ocspVals")]
+    ocsp_vals: Vec<String>,
+}
+
+struct World {
+    now: i64,
+    /// root -> inter -> ee ; x5chain = [ee, inter]
+    h: Hierarchy,
+    responder: Cert,
+    sibling: Cert,
+    /// another PKI whose end-entity certificate has the same serial number as ours
+    foreign: Hierarchy,
+    foreign_responder: Cert,
+    selfmade_responder: Cert,
+    /// root1 -> ee1 ; x5chain = [ee1] (issuer = the trust anchor, not conveyed)
+    h1: Hierarchy,
+    responder1: Cert,
+}
+
+fn world(kind: KeyKind) -> World {
+    let now = pki::now();
+    let h = Hierarchy::build("c37", 2, kind, CertSpec::ee("c37 signer"));
+    let inter = h.ee_issuer().cloned().unwrap_or_else(|| kit::ev::machinery("C37: no issuer"));
+    let responder = pki::issue(&CertSpec::ocsp_responder("c37 responder"), &pki::gen_key(kind, "c37-resp"), Some(&inter));
+    let sibling = pki::issue(&CertSpec::ee("c37 sibling"), &pki::gen_key(kind, "c37-sib"), Some(&inter));
+    let mut fs = CertSpec::ee("c37 foreign signer");
+    fs.serial = h.ee.spec.serial;
+    let foreign = Hierarchy::build("c37-foreign", 2, kind, fs);
+    let finter = foreign.ee_issuer().cloned().unwrap_or_else(|| kit::ev::machinery("C37: no foreign issuer"));
+    let foreign_responder = pki::issue(&CertSpec::ocsp_responder("c37 foreign responder"), &pki::gen_key(kind, "c37-fresp"), Some(&finter));
+    let mut sm = CertSpec::ocsp_responder("c37 self-made responder");
+    sm.aki = true;
+    let selfmade_responder = pki::issue(&sm, &pki::gen_key(kind, "c37-selfresp"), None);
+    let h1 = Hierarchy::build("c37-d1", 1, kind, CertSpec::ee("c37 d1 signer"));
+    let root1 = h1.root.clone().unwrap_or_else(|| kit::ev::machinery("C37: no root1"));
+    let responder1 = pki::issue(&CertSpec::ocsp_responder("c37 d1 responder"), &pki::gen_key(kind, "c37-resp1"), Some(&root1));
+    World { now, h, responder, sibling, foreign, foreign_responder, selfmade_responder, h1, responder1 }
+}
+
+#[derive(Clone, Copy, PartialEq, Eq, Debug)]
+enum Expect {
+    /// revoked for the signing certificate, by construction
+    NotValid,
+    /// does not concern the signing certificate or is not validly signed, by construction
+    SameAsBaseline,
+    /// the property does not fix the verdict
+    Open,
+}
+
+#[derive(Clone, Copy, PartialEq, Eq, Debug)]
+enum Signing {
+    /// depth-2 hierarchy, x5chain [ee, inter]
+    D2,
+    /// depth-1 hierarchy, x5chain [ee]
+    D1Leaf,
+    /// depth-1 hierarchy, x5chain [ee, root]
+    D1WithRoot,
+}
+
+const SCENARIOS: &[(&str, Signing, Expect)] = &[
+    ("good-cli", Signing::D2, Expect::Open),
+    ("revoked-cli", Signing::D2, Expect::NotValid),
+    ("revoked-kit", Signing::D2, Expect::NotValid),
+    ("revoked-kit-responder-by-key", Signing::D2, Expect::NotValid),
+    ("revoked-signed-by-issuing-ca", Signing::D2, Expect::NotValid),
+    ("unknown-cli", Signing::D2, Expect::Open),
+    ("sibling-certificate-revoked", Signing::D2, Expect::SameAsBaseline),
+    ("other-ca-same-serial-revoked", Signing::D2, Expect::SameAsBaseline),
+    ("other-ca-certid-signed-by-our-responder", Signing::D2, Expect::SameAsBaseline),
+    ("right-certid-foreign-responder", Signing::D2, Expect::SameAsBaseline),
+    ("right-certid-self-made-responder", Signing::D2, Expect::SameAsBaseline),
+    ("revoked-expired-response", Signing::D2, Expect::Open),
+    ("good-expired-response", Signing::D2, Expect::Open),
+    ("revoked-issuer-is-anchor-not-in-x5chain", Signing::D1Leaf, Expect::NotValid),
+    ("revoked-issuer-root-in-x5chain", Signing::D1WithRoot, Expect::NotValid),
+];
+
+fn kit_resp(w: &World, subject: &Cert, issuer: &Cert, status: OcspStatus, responder: &Cert, embed: Vec<&Cert>, by_key: bool, expired: bool) -> Vec<u8> {
+    let (this, next) = if expired { (w.now - 60 * DAY, w.now - 53 * DAY) } else { (w.now - 3600, w.now + 7 * DAY) };
+    pki::build_ocsp(&OcspOpts { subject, subject_issuer: issuer, status, this_update: this, next_update: Some(next), produced_at: this, responder, embed, by_key })
+}
+
+fn response(w: &World, scenario: &str) -> Vec<u8> {
+    let inter = w.h.ee_issuer().unwrap_or_else(|| kit::ev::machinery("C37: issuer"));
+    let finter = w.foreign.ee_issuer().unwrap_or_else(|| kit::ev::machinery("C37: foreign issuer"));
+    let root1 = w.h1.root.as_ref().unwrap_or_else(|| kit::ev::machinery("C37: root1"));
+    let revoked = || OcspStatus::Revoked(w.now - 100 * DAY, None);
+    let cli = |st: OcspStatus| pki::ocsp_cli(inter, &w.h.ee, &w.responder, &st, 7).unwrap_or_else(|e| kit::ev::machinery(format!("C37: {e}")));
+    match scenario {
+        "good-cli" => cli(OcspStatus::Good),
+        "revoked-cli" => cli(OcspStatus::Revoked(w.now - 100 * DAY, Some(1))),
+        "unknown-cli" => cli(OcspStatus::Unknown),
+        "revoked-kit" => kit_resp(w, &w.h.ee, inter, revoked(), &w.responder, vec![&w.responder], false, false),
+        "revoked-kit-responder-by-key" => kit_resp(w, &w.h.ee, inter, revoked(), &w.responder, vec![&w.responder], true, false),
+        "revoked-signed-by-issuing-ca" => kit_resp(w, &w.h.ee, inter, revoked(), inter, vec![inter], false, false),
+        "sibling-certificate-revoked" => kit_resp(w, &w.sibling, inter, revoked(), &w.responder, vec![&w.responder], false, false),
+        "other-ca-same-serial-revoked" => kit_resp(w, &w.foreign.ee, finter, revoked(), &w.foreign_responder, vec![&w.foreign_responder, finter], false, false),
+        "other-ca-certid-signed-by-our-responder" => kit_resp(w, &w.foreign.ee, finter, revoked(), &w.responder, vec![&w.responder], false, false),
+        "right-certid-foreign-responder" => kit_resp(w, &w.h.ee, inter, revoked(), &w.foreign_responder, vec![&w.foreign_responder, finter], false, false),
+        "right-certid-self-made-responder" => kit_resp(w, &w.h.ee, inter, revoked(), &w.selfmade_responder, vec![&w.selfmade_responder], false, false),
+        "revoked-expired-response" => kit_resp(w, &w.h.ee, inter, revoked(), &w.responder, vec![&w.responder], false, true),
+        "good-expired-response" => kit_resp(w, &w.h.ee, inter, OcspStatus::Good, &w.responder, vec![&w.responder], false, true),
+        "revoked-issuer-is-anchor-not-in-x5chain" | "revoked-issuer-root-in-x5chain" => kit_resp(w, &w.h1.ee, root1, revoked(), &w.responder1, vec![&w.responder1], false, false),
+        other => kit::ev::machinery(format!("C37: unknown scenario {other}")),
+    }
+}
+
+fn signer_for(w: &World, s: Signing) -> KitSigner {
+    match s {
+        Signing::D2 => KitSigner::for_hierarchy(&w.h),
+        Signing::D1Leaf => KitSigner::new(&w.h1.ee.key, w.h1.chain(false)),
+        Signing::D1WithRoot => KitSigner::new(&w.h1.ee.key, w.h1.chain(true)),
+    }
+    .direct()
+}
+
+fn ctx(w: &World) -> c2pa::Context {
+    let anchors = format!("{}{}", w.h.root.as_ref().map(|r| r.pem()).unwrap_or_default(), w.h1.root.as_ref().map(|r| r.pem()).unwrap_or_default());
+    pki::read_ctx(json!({"trust_anchors": anchors}), json!({"verify_trust": true}))
+}
+
+#[derive(Clone, Copy, PartialEq, Eq, Debug)]
+enum Carrier {
+    Stapled,
+    Assertion,
+}
+
+/// Sign with (optional) revocation evidence; Err = the SDK refused.
+fn sign(w: &World, s: Signing, ocsp: Option<(&[u8], Carrier)>) -> Result<Vec<u8>, String> {
+    let mut signer = signer_for(w, s);
+    let mut assertion: Option<Vec<u8>> = None;
+    match ocsp {
+        Some((der, Carrier::Stapled)) => signer = signer.with_ocsp(der.to_vec()),
+        Some((der, Carrier::Assertion)) => assertion = Some(der.to_vec()),
+        None => {}
+    }
+    let c = kit::sdk::ctx_with(&[r#"{"verify":{"verify_after_sign":false}}"#]);
+    let mut b = kit::sdk::builder(c, pki::DEF_V2);
+    if let Some(der) = assertion {
+        b.add_assertion("c2pa.certificate-status", &CertStatusAssertion { ocsp_vals: vec![pki::b64(&der)] }).map_err(|e| format!("add_assertion: {e:?}"))?;
+    }
+    match par::guard(|| kit::sdk::sign(&mut b, &signer, "image/png", &kit::assets::png())) {
+        Ok(Ok((bytes, _))) => Ok(bytes),
+        Ok(Err(e)) => Err(format!("{e:?}")),
+        Err(p) => Err(format!("PANIC {p}")),
+    }
+}
+
+/// the part of an observation the property calls "the verdict"
+fn verdict(o: &Obs) -> (String, Vec<String>) {
+    let mut f: Vec<String> = o.codes.iter().filter(|c| c.contains("/failure:")).cloned().collect();
+    f.sort();
+    f.dedup();
+    (o.state.clone(), f)
+}
+
+fn baseline(w: &World, s: Signing) -> Obs {
+    let a = sign(w, s, None).unwrap_or_else(|e| kit::ev::machinery(format!("C37: baseline signing failed: {e}")));
+    let o = pki::observe(ctx(w), "image/png", &a).unwrap_or_else(|p| kit::ev::machinery(format!("C37: baseline read panics: {p}")));
+    let o2 = pki::observe(ctx(w), "image/png", &a).unwrap_or_else(|p| kit::ev::machinery(format!("C37: baseline read panics: {p}")));
+    if o != o2 {
+        kit::ev::machinery("C37: baseline read not deterministic");
+    }
+    if o.state != "Trusted" {
+        kit::ev::machinery(format!("C37: baseline ({s:?}) is not Trusted: {} {:?}", o.state, o.codes));
+    }
+    o
+}
+
+fn menu_case(run: &Run, w: &World, name: &str, s: Signing, expect: Expect, carrier: Carrier, base: &Obs) {
+    let der = response(w, name);
+    // harness preconditions on the evidence itself, by OpenSSL
+    let inter = w.h.ee_issuer().unwrap_or_else(|| kit::ev::machinery("C37: issuer"));
+    let (anchors, untrusted): (Vec<&Cert>, Vec<&Cert>) = match s {
+        Signing::D2 => (w.h.root.iter().collect(), vec![inter]),
+        _ => (w.h1.root.iter().collect(), vec![]),
+    };
+    let ossl_ok = pki::ocsp_verify_inproc(&der, &anchors, &untrusted);
+    let should_verify = !matches!(name, "right-certid-foreign-responder" | "right-certid-self-made-responder" | "other-ca-same-serial-revoked" | "other-ca-certid-signed-by-our-responder");
+    if ossl_ok != should_verify {
+        kit::ev::machinery(format!("C37: OpenSSL OCSP_basic_verify says {ossl_ok} for '{name}' (expected {should_verify}); the kit's evidence is not what the check assumes"));
+    }
+    run.eval();
+    let id = format!("menu/{name}/{carrier:?}");
+    let case = json!({"kind":"menu","scenario":name,"carrier":format!("{carrier:?}"),"keys":w.h.ee.key.kind.name()});
+    let asset = match sign(w, s, Some((&der, carrier))) {
+        Ok(a) => a,
+        Err(e) => {
+            run.outcome(format!("sign-refused {carrier:?}: {}", e.split('(').next().unwrap_or("")));
+            if carrier == Carrier::Stapled {
+                kit::ev::machinery(format!("C37: cannot sign with stapled response '{name}': {e}"));
+            }
+            return;
+        }
+    };
+    let o = match pki::observe(ctx(w), "image/png", &asset) {
+        Ok(o) => o,
+        Err(p) => {
+            run.violation(format!("panic menu scenario={name} carrier={carrier:?}"), p, case);
+            return;
+        }
+    };
+    if std::env::var("VERIF_DEBUG").is_ok() && o.state.starts_with("Err") {
+        eprintln!("{id}: read error {:?}", kit::sdk::read(ctx(w), "image/png", &asset).err());
+    }
+    run.nontrivial(id.clone());
+    run.outcome(format!("{name}/{carrier:?}: {} {:?}", o.state, o.pick(&["signingCredential"])));
+    let what = format!("{id}: state {} codes {:?} (without evidence: {} {:?})", o.state, o.pick(&["signingCredential", "timeStamp"]), base.state, verdict(base).1);
+    match expect {
+        Expect::NotValid => {
+            if o.ok_state() {
+                run.violation(format!("revoked-certificate-accepted scenario={name} carrier={carrier:?} state={}", o.state), what, case);
+            }
+        }
+        Expect::SameAsBaseline => {
+            if verdict(&o) != verdict(base) {
+                run.violation(format!("verdict-changed-by-unrelated-or-unauthorised-response scenario={name} carrier={carrier:?} state={}", o.state), what, case);
+            }
+        }
+        Expect::Open => {}
+    }
+}
+
+#[derive(Default)]
+struct Stats {
+    open_same: u64,
+    open_changed_ossl_accepts: u64,
+    open_changed_ossl_rejects: u64,
+    examples: Vec<Value>,
+}
+
+struct Seed {
+    asset: Vec<u8>,
+    at: usize,
+    resp: Vec<u8>,
+    regions: Vec<(usize, usize, &'static str)>,
+    base: Obs,
+}
+
+fn sweep_one(run: &Run, w: &World, seed: &Seed, off: usize, mask: u8, stats: &Mutex<Stats>) {
+    let mut asset = seed.asset.clone();
+    asset[seed.at + off] ^= mask;
+    let o = pki::observe(ctx(w), "image/png", &asset);
+    run.eval();
+    let region = pki::region_of(&seed.regions, off);
+    let rname = region.map(|r| r.0).unwrap_or("open");
+    let case = json!({"kind":"sweep","offset":off,"mask":mask,"region":rname,"rel":region.map(|r| r.1),"keys":w.h.ee.key.kind.name()});
+    let o = match o {
+        Err(p) => {
+            run.violation(format!("panic sweep region={rname} mask={mask:02x}"), format!("offset {off}: {p}"), case);
+            return;
+        }
+        Ok(o) => o,
+    };
+    let same = verdict(&o) == verdict(&seed.base);
+    run.outcome(format!("sweep {rname}: {} same-as-no-evidence={same}", o.state));
+    if region.is_some() {
+        run.nontrivial(format!("sweep/{off}/{mask}"));
+        if !same {
+            run.violation(
+                format!("verdict-changed-by-response-with-broken-signature region={rname} mask={mask:02x} state={}", o.state),
+                format!("byte {off} of the stapled response ({rname}) xor {mask:02x}: state {} failure codes {:?}; without evidence: {} {:?}", o.state, verdict(&o).1, seed.base.state, verdict(&seed.base).1),
+                case,
+            );
+        }
+    } else {
+        let mut r = seed.resp.clone();
+        r[off] ^= mask;
+        let inter = w.h.ee_issuer().into_iter().collect::<Vec<_>>();
+        let ossl = pki::ocsp_verify_inproc(&r, &w.h.root.iter().collect::<Vec<_>>(), &inter);
+        let mut g = stats.lock().unwrap();
+        if same {
+            g.open_same += 1;
+        } else if ossl {
+            g.open_changed_ossl_accepts += 1;
+        } else {
+            g.open_changed_ossl_rejects += 1;
+            if g.examples.len() < 40 {
+                g.examples.push(json!({"offset": off, "mask": mask, "state": o.state}));
+            }
+        }
+    }
+}
+
+pub fn run(run: &Run, replay: Option<&Value>) {
+    run.rule("menu: 15 OCSP scenarios (see SCENARIOS) stapled through Signer::ocsp_val, and those of them that make sense as a c2pa.certificate-status assertion; \
+              sweep: a validly signed 'revoked' response stapled in the asset with EVERY byte xor-ed in turn (quick 0x01; thorough 0x01, 0x80, 0xFF). \
+              non-trivial = menu cases that were read back, and sweep cases whose byte lies in tbsResponseData / signatureAlgorithm / signature / responder public key.");
+    run.assume("reader trusts the signing roots (without trust anchors the SDK cannot authorise any responder and ignores all evidence); no time-stamp, so the signing time is 'now'");
+    run.assume("evidence is checked by OpenSSL's OCSP_basic_verify before use: validly signed + authorised where the scenario says so, rejected for the foreign / self-made responder; disagreement is a machinery failure");
+    run.assume("verdict = validation state + failure-bin codes (informational OCSP notes may differ); 'unknown', 'good' and expired responses are recorded, not judged; revocation before a time-stamped signing time is not enumerated");
+    if !pki::cli_available() {
+        kit::ev::machinery("C37: openssl CLI not available");
+    }
+    let kinds: Vec<KeyKind> = if run.tier.is_thorough() { vec![KeyKind::P256, KeyKind::Rsa2048, KeyKind::P384] } else { vec![KeyKind::P256] };
+
+    if let Some(c) = replay {
+        let w = world(KeyKind::from_name(c["keys"].as_str().unwrap_or("p256")));
+        if c["kind"] == "menu" {
+            let name = c["scenario"].as_str().unwrap_or("");
+            let Some((n, s, e)) = SCENARIOS.iter().find(|x| x.0 == name) else { kit::ev::machinery("C37 replay: unknown scenario") };
+            let carrier = if c["carrier"] == "Assertion" { Carrier::Assertion } else { Carrier::Stapled };
+            let base = baseline(&w, *s);
+            println!("replay {n} {carrier:?}: expectation {e:?}; response (base64): {}", pki::b64(&response(&w, n)));
+            menu_case(run, &w, n, *s, *e, carrier, &base);
+        } else if let Some(seed) = sweep_seed(run, &w) {
+            let off = match (c["region"].as_str(), c["rel"].as_u64()) {
+                (Some(r), Some(rel)) if r != "open" => seed.regions.iter().find(|x| x.2 == r).map(|x| x.0 + rel as usize),
+                _ => c["offset"].as_u64().map(|x| x as usize),
+            }
+            .unwrap_or(0)
+            .min(seed.resp.len() - 1);
+            sweep_one(run, &w, &seed, off, c["mask"].as_u64().unwrap_or(1) as u8, &Mutex::new(Stats::default()));
+        }
+        return;
+    }
+
+    let stats = Mutex::new(Stats::default());
+    for kind in kinds {
+        let w = world(kind);
+        let bases: Vec<(Signing, Obs)> = [Signing::D2, Signing::D1Leaf, Signing::D1WithRoot].into_iter().map(|s| (s, baseline(&w, s))).collect();
+        run.evals(6);
+        let base_of = |s: Signing| bases.iter().find(|b| b.0 == s).map(|b| b.1.clone()).unwrap_or_else(|| kit::ev::machinery("C37: no baseline"));
+        let mut menu: Vec<(&str, Signing, Expect, Carrier)> = vec![];
+        for (n, s, e) in SCENARIOS {
+            menu.push((n, *s, *e, Carrier::Stapled));
+            if matches!(*n, "good-cli" | "revoked-kit" | "revoked-cli" | "sibling-certificate-revoked" | "right-certid-foreign-responder" | "other-ca-same-serial-revoked") {
+                menu.push((n, *s, *e, Carrier::Assertion));
+            }
+        }
+        run.space(&format!("menu keys={}: (scenario, carrier)", kind.name()), menu.len() as u64, true);
+        par::for_each(&menu, |(n, s, e, c)| menu_case(run, &w, n, *s, *e, *c, &base_of(*s)));
+
+        // ---- sweep
+        let Some(seed) = sweep_seed(run, &w) else { continue };
+        let masks: &[u8] = run.tier.pick(&[0x01u8][..], &[0x01u8, 0x80, 0xFF][..]);
+        let n = seed.resp.len();
+        run.space(&format!("sweep keys={}: every byte of the {n}-byte stapled 'revoked' response x {} mask(s)", kind.name(), masks.len()), (n * masks.len()) as u64, true);
+        run.sample(json!({"sweep_seed": {"keys": kind.name(), "response_bytes": n, "signature_covered_regions": seed.regions.iter().map(|r| json!([r.2, r.0, r.1])).collect::<Vec<_>>(), "without_evidence": seed.base.class()}}));
+        let work: Vec<(usize, u8)> = (0..n).flat_map(|o| masks.iter().map(move |m| (o, *m))).collect();
+        par::for_each(&work, |(off, mask)| sweep_one(run, &w, &seed, *off, *mask, &stats));
+    }
+    run.sample(json!({"menu_case": {"scenario": "right-certid-foreign-responder", "carrier": "Stapled", "expect": "same verdict as without evidence"}}));
+    let g = stats.lock().unwrap();
+    run.extra("open_region_verdict_unchanged", json!(g.open_same));
+    run.extra("open_region_verdict_changed_and_openssl_accepts_response", json!(g.open_changed_ossl_accepts));
+    run.extra("open_region_verdict_changed_but_openssl_rejects_response", json!(g.open_changed_ossl_rejects));
+    run.extra("open_region_verdict_changed_but_openssl_rejects_examples", json!(g.examples));
+}
+
+fn sweep_seed(run: &Run, w: &World) -> Option<Seed> {
+    let resp = response(w, "revoked-kit");
+    let asset = sign(w, Signing::D2, Some((&resp, Carrier::Stapled))).unwrap_or_else(|e| kit::ev::machinery(format!("C37: sweep seed signing: {e}")));
+    let at = pki::find(&asset, &resp).unwrap_or_else(|| kit::ev::machinery("C37: stapled response not found in the asset"));
+    if pki::find(&asset[at + 1..], &resp).is_some() {
+        kit::ev::machinery("C37: stapled response occurs twice");
+    }
+    let regions = pki::ocsp_regions(&resp).unwrap_or_else(|| kit::ev::machinery("C37: cannot map the kit response"));
+    if regions.len() != 4 {
+        kit::ev::machinery(format!("C37: response map incomplete {regions:?}"));
+    }
+    let o = pki::observe(ctx(w), "image/png", &asset).unwrap_or_else(|p| kit::ev::machinery(format!("C37: seed read panics {p}")));
+    run.eval();
+    if o.ok_state() {
+        // the menu already reports this; a sweep over evidence the SDK ignores would be vacuous
+        run.extra("sweep_skipped", json!("the unaltered 'revoked' response does not invalidate the manifest"));
+        return None;
+    }
+    // baseline = the same asset with the evidence made unparseable is not available; use a separate signing without evidence
+    let base = baseline(w, Signing::D2);
+    Some(Seed { asset, at, resp, regions, base })
 }
